@@ -1,7 +1,9 @@
 // Harness area "num" (property C13): runs the numeric conversion code of package datacodec on boundary and seeded
 // random values and prints one JSON object per line.
 //
-//	num <numeric_table.json> [thorough]
+//	num <numeric_table.json> [thorough] [deep]
+//
+// deep: only the search on the implementation (the property's predicate), widened; no correspondence records.
 //
 // Record kinds:
 //
@@ -65,6 +67,7 @@ type M = map[string]interface{}
 
 var rnd *rand.Rand
 var thorough bool
+var deepFactor = 1 // > 1 in the widened search ("deep")
 
 func pow2(n uint) *big.Int { return new(big.Int).Lsh(big.NewInt(1), n) }
 
@@ -292,11 +295,27 @@ func f64Oracles(f float64) {
 	f32Oracles(n)
 	oracle("f64_isnan", M{"x": strconv.FormatUint(b, 10), "r": math.IsNaN(f)})
 	oracle("f64_eqb", M{"x": strconv.FormatUint(math.Float64bits(float64(n)), 10), "y": strconv.FormatUint(b, 10), "r": float64(n) == f})
-	if !math.IsNaN(f) {
-		bf := new(big.Float).SetFloat64(f)
-		oracle("BigFloat_SetFloat64", M{"x": strconv.FormatUint(b, 10), "bf": bfKey(bf)})
-		bigFloatOracle(bf)
+}
+
+// precisions a caller may have given a *big.Float destination before Decode (0: not set, new(big.Float))
+var destPrecs = []uint{0, 1, 10, 24, 52, 53, 64, 200}
+
+// a fresh *big.Float destination of the given preset precision
+func bfDest(prec uint) *big.Float {
+	if prec == 0 {
+		return new(big.Float)
 	}
+	return new(big.Float).SetPrec(prec).SetInt64(77) // pre-filled (rounded to prec), keeps the precision
+}
+
+// what math/big answers for z.SetFloat64(f) on a z of the given precision: the value z then holds, and z.Acc()
+func setFloatOracle(prec uint, f float64) {
+	if math.IsNaN(f) {
+		return // SetFloat64(NaN) panics; the code never calls it (math.IsNaN guard)
+	}
+	z := bfDest(prec)
+	z.SetFloat64(f)
+	oracle("BigFloat_SetFloat64", M{"prec": int(prec), "x": strconv.FormatUint(math.Float64bits(f), 10), "bf": bfKey(z), "acc": int(z.Acc())})
 }
 
 func f32Oracles(n float32) {
@@ -376,7 +395,26 @@ func stringSources() []src {
 
 var f64Samples = []float64{0, math.Copysign(0, -1), 1, -1, 0.5, 0.1, 1.0 / 3, 16777216, 16777217, 3.4028234663852886e38, 3.4028235677973366e38, 3.5e38, 1e39, -1e39,
 	1.401298464324817e-45, 7.006492321624085e-46, 1e-46, 1.1754943508222875e-38, math.MaxFloat64, math.SmallestNonzeroFloat64, math.Inf(1), math.Inf(-1), math.NaN(),
-	123456789, 0.000123, 1e10, 4294967296, 9007199254740993}
+	123456789, 0.000123, 1e10, 4294967296, 9007199254740993,
+	// NaN patterns: negative quiet, signalling, payloads
+	math.Float64frombits(0xfff8000000000000), math.Float64frombits(0x7ff0000000000001), math.Float64frombits(0x7ff8000000000001),
+	math.Float64frombits(0xffffffffffffffff), math.Float64frombits(0x7ff4000000000000), float64(math.Float32frombits(0x7fc00000)),
+	float64(math.Float32frombits(0xffc00001))}
+
+// float64 values whose mantissa has exactly w significant bits, w around the preset precisions of a *big.Float destination
+// (such a value fits a destination of precision p exactly iff w <= p), at a few exponents, and classic decimal fractions
+var precSamples = func() []float64 {
+	var out []float64
+	for _, w := range []uint{1, 2, 9, 10, 11, 23, 24, 25, 51, 52, 53} {
+		m := float64(uint64(1)<<(w-1) | 1)
+		for _, e := range []int{0, -int(w) + 1, -30, 40, -1074 + 60, 1023 - 53} {
+			out = append(out, math.Ldexp(m, e), -math.Ldexp(m, e))
+		}
+	}
+	out = append(out, 1.0000001, 0.1, 1.0/3, 1+math.Ldexp(1, -52), 1+math.Ldexp(1, -9), 1+math.Ldexp(1, -10), 1023, 1025, 3, 5, 0.75,
+		math.MaxFloat64, math.SmallestNonzeroFloat64, math.Ldexp(3, -1074), math.MaxFloat32, 16777217, 9007199254740991)
+	return out
+}()
 
 func floatSources() []src {
 	var out []src
@@ -408,6 +446,11 @@ func floatSources() []src {
 		bfs = append(bfs, x)
 	}
 	bfs = append(bfs, new(big.Float).SetInf(false), new(big.Float).SetInf(true))
+	for _, c := range bfDirected() {
+		if c.class == "subnormal64-inexact" || c.class == "subnormal64-exact" || c.class == "overflow64-inexact" || c.class == "wide64-inexact" {
+			bfs = append(bfs, c.x)
+		}
+	}
 	for _, x := range bfs {
 		bigFloatOracle(x)
 		out = append(out, src{"G_pbigfloat", x, M{"bf": bfKey(x)}, nil, "*big.Float"})
@@ -479,10 +522,12 @@ func runToSwitches(tab *numTable, srcs []src) int {
 }
 
 type dst struct {
-	ctor string
-	mk   func() interface{} // fresh pre-filled destination (nil pointer when isnil)
-	nilp bool
-	goty string
+	ctor      string
+	mk        func() interface{} // fresh pre-filled destination (nil pointer when isnil)
+	nilp      bool
+	goty      string
+	prec      int  // *big.Float destinations: the precision preset by the caller (part of the model's D_pbigfloat); -1 otherwise
+	floatOnly bool // used with the float switches only (keeps the integer switch cases as they were)
 }
 
 func destinations() []dst {
@@ -493,28 +538,36 @@ func destinations() []dst {
 			p := reflect.New(goTypes[name])
 			p.Elem().Set(mkInt(name, big.NewInt(77)))
 			return p.Interface()
-		}, false, "*" + name})
-		out = append(out, dst{"D_p" + name, func() interface{} { return reflect.Zero(reflect.PtrTo(goTypes[name])).Interface() }, true, "*" + name})
+		}, false, "*" + name, -1, false})
+		out = append(out, dst{"D_p" + name, func() interface{} { return reflect.Zero(reflect.PtrTo(goTypes[name])).Interface() }, true, "*" + name, -1, false})
 	}
 	out = append(out,
-		dst{"D_piface", func() interface{} { var x interface{} = "prefilled"; return &x }, false, "*interface{}"},
-		dst{"D_piface", func() interface{} { return (*interface{})(nil) }, true, "*interface{}"},
-		dst{"D_pbigint", func() interface{} { return big.NewInt(77) }, false, "*big.Int"},
-		dst{"D_pbigint", func() interface{} { return (*big.Int)(nil) }, true, "*big.Int"},
-		dst{"D_pstring", func() interface{} { s := "prefilled"; return &s }, false, "*string"},
-		dst{"D_pstring", func() interface{} { return (*string)(nil) }, true, "*string"},
-		dst{"D_pfloat32", func() interface{} { f := float32(77); return &f }, false, "*float32"},
-		dst{"D_pfloat32", func() interface{} { return (*float32)(nil) }, true, "*float32"},
-		dst{"D_pfloat64", func() interface{} { f := float64(77); return &f }, false, "*float64"},
-		dst{"D_pfloat64", func() interface{} { return (*float64)(nil) }, true, "*float64"},
-		dst{"D_pbigfloat", func() interface{} { return big.NewFloat(77) }, false, "*big.Float"},
-		dst{"D_pbigfloat", func() interface{} { return (*big.Float)(nil) }, true, "*big.Float"},
-		dst{"D_other", func() interface{} { return nil }, false, "nil"},
-		dst{"D_other", func() interface{} { return int64(5) }, false, "int64"},
-		dst{"D_other", func() interface{} { b := true; return &b }, false, "*bool"},
-		dst{"D_other", func() interface{} { return &[]int{} }, false, "*[]int"},
-		dst{"D_other", func() interface{} { return big.Int{} }, false, "big.Int"},
+		dst{"D_piface", func() interface{} { var x interface{} = "prefilled"; return &x }, false, "*interface{}", -1, false},
+		dst{"D_piface", func() interface{} { return (*interface{})(nil) }, true, "*interface{}", -1, false},
+		dst{"D_pbigint", func() interface{} { return big.NewInt(77) }, false, "*big.Int", -1, false},
+		dst{"D_pbigint", func() interface{} { return (*big.Int)(nil) }, true, "*big.Int", -1, false},
+		dst{"D_pstring", func() interface{} { s := "prefilled"; return &s }, false, "*string", -1, false},
+		dst{"D_pstring", func() interface{} { return (*string)(nil) }, true, "*string", -1, false},
+		dst{"D_pfloat32", func() interface{} { f := float32(77); return &f }, false, "*float32", -1, false},
+		dst{"D_pfloat32", func() interface{} { return (*float32)(nil) }, true, "*float32", -1, false},
+		dst{"D_pfloat64", func() interface{} { f := float64(77); return &f }, false, "*float64", -1, false},
+		dst{"D_pfloat64", func() interface{} { return (*float64)(nil) }, true, "*float64", -1, false},
+		dst{"D_pbigfloat", func() interface{} { return big.NewFloat(77) }, false, "*big.Float", 53, false},
+		dst{"D_pbigfloat", func() interface{} { return (*big.Float)(nil) }, true, "*big.Float", 0, false},
+		dst{"D_other", func() interface{} { return nil }, false, "nil", -1, false},
+		dst{"D_other", func() interface{} { return int64(5) }, false, "int64", -1, false},
+		dst{"D_other", func() interface{} { b := true; return &b }, false, "*bool", -1, false},
+		dst{"D_other", func() interface{} { return &[]int{} }, false, "*[]int", -1, false},
+		dst{"D_other", func() interface{} { return big.Int{} }, false, "big.Int", -1, false},
 	)
+	// *big.Float destinations of every other preset precision (float switches only)
+	for _, p := range destPrecs {
+		if p == 53 {
+			continue
+		}
+		p := p
+		out = append(out, dst{"D_pbigfloat", func() interface{} { return bfDest(p) }, false, fmt.Sprintf("*big.Float(prec=%d)", p), int(p), true})
+	}
 	return out
 }
 
@@ -591,6 +644,9 @@ func runFromSwitches(tab *numTable, B []*big.Int) int {
 					continue
 				}
 				for _, d := range dsts {
+					if d.floatOnly {
+						continue
+					}
 					dest := d.mk()
 					var a0 reflect.Value
 					if j.r.Bits == 0 {
@@ -605,6 +661,9 @@ func runFromSwitches(tab *numTable, B []*big.Int) int {
 					}
 					res := f.Call([]reflect.Value{a0, reflect.ValueOf(wasNull), a2})
 					rec := M{"k": "from", "name": j.name, "val": v.String(), "null": wasNull, "c": d.ctor, "dnil": d.nilp, "go": d.goty, "ok": !isErr(res[0])}
+					if d.prec >= 0 {
+						rec["prec"] = d.prec
+					}
 					if !isErr(res[0]) {
 						rec["st"] = stored(dest)
 					}
@@ -621,13 +680,23 @@ func runFromSwitches(tab *numTable, B []*big.Int) int {
 			continue
 		}
 		fs := append([]float64{}, f64Samples...)
-		for _, x := range fs {
+		nGeneral := len(fs)
+		if name == "convertFromFloat64" {
+			fs = append(fs, precSamples...) // these go to the *big.Float destinations (every preset precision) only
+		}
+		for xi, x := range fs {
 			f64Oracles(x)
 			for _, wasNull := range []bool{false, true} {
 				if wasNull && x != 1 {
 					continue
 				}
 				for _, d := range dsts {
+					if xi >= nGeneral && (d.prec < 0 || d.nilp) {
+						continue
+					}
+					if d.prec >= 0 && !d.nilp {
+						setFloatOracle(uint(d.prec), x)
+					}
 					dest := d.mk()
 					var a0 reflect.Value
 					var bits string
@@ -644,6 +713,9 @@ func runFromSwitches(tab *numTable, B []*big.Int) int {
 					}
 					res := f.Call([]reflect.Value{a0, reflect.ValueOf(wasNull), a2})
 					rec := M{"k": "from", "name": name, "val": bits, "null": wasNull, "c": d.ctor, "dnil": d.nilp, "go": d.goty, "ok": !isErr(res[0])}
+					if d.prec >= 0 {
+						rec["prec"] = d.prec
+					}
 					if !isErr(res[0]) {
 						rec["st"] = stored(dest)
 					}
@@ -941,9 +1013,11 @@ func predFloats() {
 	v5 := primitive.ProtocolVersion5
 	same := func(a, b float64) bool { return a == b && math.Signbit(a) == math.Signbit(b) || (math.IsNaN(a) && math.IsNaN(b)) }
 	fs := append([]float64{}, f64Samples...)
-	for i := 0; i < 200; i++ {
+	fs = append(fs, f32Edge...)
+	for i := 0; i < 200*deepFactor; i++ {
 		fs = append(fs, math.Float64frombits(rnd.Uint64()))
 	}
+	fs = append(fs, f64RandomNear32(300*deepFactor)...)
 	for _, f := range fs {
 		f := f
 		// float64 -> CQL float
@@ -996,19 +1070,16 @@ func predFloats() {
 		nPred++
 		predPairs["float/dec/*float64"] = true
 	}
-	// big.Float -> double
-	for _, s := range []string{"0.1", "1e400", "-1e400", "1e-400", "9007199254740993", "18446744073709551617", "0.5", "1", "123456789.125", "0.3333333333333333333333333333"} {
-		x, _, _ := big.ParseFloat(s, 10, 200, big.ToNearestEven)
-		out, err := datacodec.Double.Encode(x, v5)
-		nPred++
-		predPairs["double/enc/*big.Float"] = true
-		if err == nil {
-			got := math.Float64frombits(new(big.Int).SetBytes(out).Uint64())
-			if math.IsInf(got, 0) || math.IsNaN(got) || new(big.Float).SetFloat64(got).Cmp(x) != 0 {
-				viol(M{"cql": "double", "dir": "encode", "gotype": "*big.Float", "value": s, "observed": strconv.FormatFloat(got, 'g', -1, 64), "expected": "error or the same real number"})
-			}
-		}
+	// *big.Float -> double / float: directed classes and seeded random values (floats.go)
+	cases := bfDirected()
+	nr := 400
+	if thorough {
+		nr = 20000
 	}
+	cases = append(cases, bfRandom(nr*deepFactor)...)
+	predBigFloats(cases)
+	predDecodeBigFloat(append(append([]float64{}, fs...), precSamples...))
+	predNaN()
 }
 
 func zigzag(v int64) uint64 { return uint64((v >> 63) ^ (v << 1)) }
@@ -1201,19 +1272,38 @@ func main() {
 		fmt.Fprintln(os.Stderr, "usage: num <numeric_table.json> [thorough]")
 		os.Exit(2)
 	}
-	thorough = len(os.Args) > 2 && os.Args[2] == "thorough"
-	rnd = rand.New(rand.NewSource(hlib.Seed()))
-	raw, err := os.ReadFile(os.Args[1])
-	if err != nil {
-		fmt.Fprintln(os.Stderr, err)
-		os.Exit(2)
+	deep := false
+	for _, a := range os.Args[2:] {
+		thorough = thorough || a == "thorough"
+		deep = deep || a == "deep"
 	}
+	rnd = rand.New(rand.NewSource(hlib.Seed()))
+	// the table of the translator lists helpers and switches for the correspondence; the search on the public API does
+	// not need it: a missing or unreadable table (the translation failed) must not stop the search
 	var tab numTable
-	if err := json.Unmarshal(raw, &tab); err != nil {
-		fmt.Fprintln(os.Stderr, err)
-		os.Exit(2)
+	if raw, err := os.ReadFile(os.Args[1]); err != nil {
+		hlib.Emit(M{"k": "notable", "why": err.Error()})
+	} else if err := json.Unmarshal(raw, &tab); err != nil {
+		hlib.Emit(M{"k": "notable", "why": err.Error()})
+		tab = numTable{}
 	}
 	defer hlib.Flush()
+	if deep {
+		// the search alone, widened (used by the check when the translation, a proof or the correspondence broke and the
+		// normal run found no failing input): more random integers, floats and big.Floats; no correspondence records
+		thorough, deepFactor = true, 10
+		B := boundaries()
+		var srcs []src
+		srcs = append(srcs, intSources(B)...)
+		srcs = append(srcs, stringSources()...)
+		predEncode(srcs)
+		predDecode(B)
+		predFloats()
+		predDuration(B)
+		predTime(B)
+		hlib.Emit(M{"k": "sum", "deep": true, "counts": M{"pred": nPred, "pred_pairs": len(predPairs), "viol": nViol, "boundary_values": len(B), "bigfloat": bfCounts}})
+		return
+	}
 	B := boundaries()
 	counts := M{}
 	counts["helpers"] = runHelpers(&tab, B)
@@ -1237,6 +1327,7 @@ func main() {
 	counts["pred_pairs"] = len(predPairs)
 	counts["viol"] = nViol
 	counts["boundary_values"] = len(B)
+	counts["bigfloat"] = bfCounts
 	var pairs []string
 	for p := range predPairs {
 		pairs = append(pairs, p)
